@@ -39,8 +39,22 @@ def naming_forms_oracle(ctx, n):
                 fails.append({'signature': 'merge:tie-order-depends-on-naming-form', 'case': {'argv': argv, 'stdin': stdin_names, 'sources': names},
                               'detail': f'rc={rc} ' + coord_common.first_diff(out, exp),
                               'files': {s['name']: s['log'].data.hex() for s in srcs} if sum(len(s['log'].data) for s in srcs) < 20000 else 'large'})
+        # the same tie rule for a WALKED directory: sources are named in sorted path order, an archive's members at the archive's
+        # position. Plain, compressed and archived logs side by side, names chosen so that an archive sorts before, between and after them.
+        wd = os.path.join(work, 'walk')
+        os.makedirs(wd, exist_ok=True)
+        wsrcs = coord_common.make_sources(rng, wd, rng.range(3, 5), kinds=('plain', 'tar', 'gz', 'tar'), tie_heavy=True)
+        wsrcs.sort(key=lambda s_: s_['name'].encode())
+        wexp, _ = coord_common.expected_stdout(wsrcs)
+        for argv in (['walk'], [os.path.join('walk', s_['name']) for s_ in wsrcs]):
+            rc, out, err, _ = e2e.s4(e2e.BASE_ARGS + argv, cwd=work)
+            ev += 1
+            if rc != 0 or out != wexp:
+                fails.append({'signature': 'merge:tie-order-in-walked-directory', 'case': {'argv': argv, 'sources': [s_['name'] for s_ in wsrcs]},
+                              'detail': f'rc={rc} ' + coord_common.first_diff(out, wexp),
+                              'files': {s_['name']: s_['log'].data.hex() for s_ in wsrcs} if sum(len(s_['log'].data) for s_ in wsrcs) < 20000 else 'large'})
     return {'evaluations': ev, 'distinct_nontrivial': ev, 'failures': fails, 'samples': [],
-            'rule': f'{n} tie-heavy inputs of 3-5 sources x 4 naming forms (all arguments; `-` splicing stdin names in the middle, at the front, at the end): '
+            'rule': f'{n} tie-heavy inputs of 3-5 sources x 4 naming forms + the same kind of input (plain / gz / tar side by side) as a walked directory and as its sorted explicit list (all arguments; `-` splicing stdin names in the middle, at the front, at the end): '
                     'stdout must equal the reference merge in naming order'}
 
 
